@@ -380,7 +380,7 @@ def check_sampled(ctx, case):
 
 
 def part_tapes(ctx):
-    n = 800 if ctx.tier == "quick" else 6000
+    n = 800 if ctx.tier == "quick" else 40000
     hyp_run(ctx, SAMPLED, lambda c: check_sampled(ctx, c), n, name="tapes")
 
 
